@@ -121,6 +121,26 @@ def check_adjust(ctx):
             meta.append(('adjust', dict(case, parameter=i), la.tolist()))
         if not full_rank or ctx.failing:
             continue
+        # a requested subset / another order of the parameters: each requested parameter is adjusted on ITS OWN finite rows
+        if p >= 2:
+            req = rng.choice([['t1'], ['t1', 't0'], ['t0']])
+            ctx.count('adjust.requested', '+'.join(req))
+            try:
+                with np.errstate(all='ignore'):
+                    res_s = adjust_posterior(to_sample(S, th, k, p), m, snames, parameter_names=list(req))
+            except ValueError as e:
+                ctx.fail_input(dict(case, parameter_names=req), 'adjust_posterior(parameter_names=%s) raised ValueError: %s' % (req, str(e)[:80]))
+                continue
+            for nm in req:
+                i = int(nm[1:])
+                exp, mask, beta, fr = expected_adjust(S, th[i], obs)
+                got = np.asarray(res_s.outputs[nm])
+                if fr and (got.shape != exp.shape or not np.allclose(got, exp, rtol=1e-8, atol=1e-9)):
+                    ctx.fail_input(dict(case, parameter_names=req, parameter=i), 'with parameter_names=%s the adjusted %s is not computed on the rows where the summaries '
+                                   'and %s itself are finite (%d rows expected, %d returned)' % (req, nm, nm, len(exp), len(got)), exp[:6].tolist(), got[:6].tolist())
+                    break
+            if ctx.failing:
+                continue
         # affine re-expression of the summaries (simulated and observed alike)
         if np.isfinite(S).all():
             while True:
